@@ -2869,9 +2869,9 @@ def memo_container_problem(ctx, mmod, name, init_value):
         for part in parts:
             t = tf.type_of(mmod.name, part)
             if t is not None and tf.is_bs4(t):
-                return f'{q} uses `{unparse(k)}` (a tag, by inferred type {tf.show(t)}) as key of {name}'
+                return f'{q} uses `{ast.unparse(k)}` (a tag, by inferred type {tf.show(t)}) as key of {name}'
             if t is not None and any(x == 'tuple' for x in tf.instance_names(t)) and 'Tag' in tf.show(t):
-                return f'{q} uses `{unparse(k)}` (type {tf.show(t)}) as key of {name}'
+                return f'{q} uses `{ast.unparse(k)}` (type {tf.show(t)}) as key of {name}'
     return None
 
 
